@@ -324,9 +324,20 @@ func newHSPair(cfg hsConfig) *hsPair {
 		}
 	}
 	mk := func(pt *party, remote *btcec.PublicKey, pass, auth []byte) {
+		// the callbacks call back into the ConnData (allowed: they run
+		// without its lock), as an application that looks at the session
+		// from its callback does
+		touch := func() {
+			if c := pt.cd; c != nil {
+				_, _ = c.SID()
+				_ = c.RemoteKey()
+				_ = c.AuthData()
+				_ = c.HandshakePattern()
+			}
+		}
 		pt.cd = mailbox.NewConnData(pt.static, remote, pass, auth,
-			func(k *btcec.PublicKey) error { pt.gotRemote = append(pt.gotRemote, k); return nil },
-			func(d []byte) error { pt.gotAuth = append(pt.gotAuth, d); return nil })
+			func(k *btcec.PublicKey) error { touch(); pt.gotRemote = append(pt.gotRemote, k); return nil },
+			func(d []byte) error { touch(); pt.gotAuth = append(pt.gotAuth, d); return nil })
 	}
 	mk(p.I, iRemote, p.passI, staleAuth(cfg))
 	mk(p.R, rRemote, p.passR, p.auth)
